@@ -64,13 +64,13 @@ func genG11Shutdown(repo string, w *Out) error {
 		{"defer func() { p.connsMu.Lock() delete(p.conns, conn) p.connsMu.Unlock() }()", "defer:delete-under-lock"},
 		{"defer p.connsWg.Add(-1)", "defer:cnt-dec"},
 		{"defer conn.Close()", "defer:conn-close"},
-		{"log.Debug(context.TODO(), \"accepted connection\", \"address\", conn.RemoteAddr().String())", "addr"},
 		{"if p.closing() { return }", "closing-check-return"},
 		{"pc := newProxyConn(p, conn)", "new-proxy-conn"},
 		{"if err := pc.maybeHandshakeTLS(); err != nil {*", "handshake"},
 		{"const maxConsecutiveErrors = 5", "const"},
 		{"errorsN := 0", "const"},
 		{"for { if err := pc.handle(); err != nil {*", "loop"},
+		{"~conn.RemoteAddr()", "addr"}, // any other statement that reads the peer address (today: the "accepted connection" log line)
 	})
 	if err != nil {
 		return err
